@@ -1,13 +1,9 @@
 import EvyV.Spec.WellTyped
 import EvyV.Props.C11
 /-!
-C02: type soundness of the evaluator model, expressions.
-
-`expr_sound`: a well-typed expression (Spec/WellTyped.lean `Typed`), evaluated for any number of
-steps in a state whose variables and heap objects have their declared types, either yields a value of
-its static type in a state that is again well-typed (the heap only grew; variables untouched), or
-ends in a documented outcome — a run-time panic of Evy, a stop, the step budget. It never ends with
-an internal error and never reaches a Go panic (`Outcome.internal`, `Outcome.goPanic`).
+C02: type soundness of the evaluator model — store typing, canonical forms, and the operators,
+indexing and slicing on values of the right types (the lemmas the induction of Props/C02Full.lean
+uses for each expression form).
 -/
 namespace EvyV.TS
 open EvyV
@@ -481,442 +477,5 @@ theorem slice_str {S : Store} {st : St F} (hk : HeapOk S st.heap) (l : Val F) (a
     cases o with
     | none => exact absurd hq (C11.sliceList_never_gopanic ops cs x y)
     | some lst => exact ⟨S, Grows.refl S, hk, .str _, rfl, rfl⟩
-
-/-! ### the induction -/
-
-abbrev PL (s : Ty) : Store → List (Val F) → Prop := fun S vs => ∀ v ∈ vs, VT S v s
-abbrev PP (s : Ty) : Store → List (Key × Val F) → Prop := fun S ps => ∀ p ∈ ps, VT S p.2 s
-abbrev PO : Store → Option (Val F) → Prop := fun S o => ∀ v, o = some v → VT S v .num
-abbrev PA : Store → List (Val F) → Prop := fun S vs => ∀ v ∈ vs, ∃ t, VT S v t
-
-/-- the statement for one step budget -/
-def SoundAt (fuel : Nat) : Prop :=
-  (∀ (e : Expr F) st G S t, Typed G e t → HeapOk S st.heap → EnvOk S G st → Good (PV t) S st (evalE ops ext prog fuel e st)) ∧
-  (∀ (es : List (Expr F)) st G S s, (∀ e ∈ es, Typed G e s) → HeapOk S st.heap → EnvOk S G st →
-      Good (PL s) S st (evalList ops ext prog fuel es st)) ∧
-  (∀ (ps : List (Str × Expr F)) st G S s, (∀ p ∈ ps, Typed G p.2 s) → HeapOk S st.heap → EnvOk S G st →
-      Good (PP s) S st (evalPairs ops ext prog fuel ps st)) ∧
-  (∀ (oe : Option (Expr F)) st G S, (∀ x, oe = some x → Typed G x .num) → HeapOk S st.heap → EnvOk S G st →
-      Good PO S st (evalOpt ops ext prog fuel oe st)) ∧
-  (∀ (es : List (Expr F)) st G S, (∀ e ∈ es, ∃ t, Typed G e t) → HeapOk S st.heap → EnvOk S G st →
-      Good PA S st (evalList ops ext prog fuel es st))
-
-/-- both operands, then the operator -/
-theorem binary_case (n : Nat) (ih : SoundAt ops ext prog n) {G : Env} {S : Store} {st : St F}
-    (op : Op) (l r : Expr F) (tl tr t : Ty) (hl : Typed G l tl) (hr : Typed G r tr)
-    (hsc : ∀ (S' : Store) (v : Val F), canShortCircuit op v = true → VT S' v tl → VT S' v tr)
-    (happ : ∀ S' (st' : St F) vl vr, HeapOk S' st'.heap → VT S' vl tl → VT S' vr tr →
-      Good (PV t) S' st' (applyBinary ops ext st' op vl vr))
-    (hk : HeapOk S st.heap) (he : EnvOk S G st) :
-    Good (PV t) S st (match evalE ops ext prog n l st with
-      | .err o st' => .err o st'
-      | .ok left st' =>
-        if canShortCircuit op left then applyBinary ops ext st' op left left
-        else
-          match evalE ops ext prog n r st' with
-          | .err o st'' => .err o st''
-          | .ok right st'' => applyBinary ops ext st'' op left right) := by
-  have h1 := ih.1 l st G S tl hl hk he
-  cases hq : evalE ops ext prog n l st with
-  | err o s1 => rw [hq] at h1; exact h1
-  | ok left s1 =>
-    rw [hq] at h1
-    obtain ⟨S1, g1, hk1, hv1, l1, gl1⟩ := h1
-    simp only
-    split
-    · rename_i hc
-      exact (happ S1 s1 left left hk1 hv1 (hsc S1 left hc hv1)).trans g1 l1 gl1
-    · have h2 := ih.1 r s1 G S1 tr hr hk1 ((he.mono g1).same l1 gl1)
-      cases hq2 : evalE ops ext prog n r s1 with
-      | err o s2 => rw [hq2] at h2; exact h2
-      | ok right s2 =>
-        rw [hq2] at h2
-        obtain ⟨S2, g2, hk2, hv2, l2, gl2⟩ := h2
-        exact (happ S2 s2 left right hk2 (hv1.mono g2) hv2).trans (g1.trans g2) (l2.trans l1) (gl2.trans gl1)
-
-theorem no_sc {op : Op} (h : isLogic op = false) (tl tr : Ty) : ∀ (S' : Store) (v : Val F), canShortCircuit op v = true → VT S' v tl → VT S' v tr := by
-  intro S' v hc
-  have := (sc_bool hc).1
-  rw [h] at this; cases this
-
-theorem sound (hx : ExtOk ext) (fuel : Nat) : SoundAt ops ext prog fuel := by
-  induction fuel with
-  | zero =>
-    refine ⟨?_, ?_, ?_, ?_, ?_⟩ <;> intros <;> simp [evalE, evalList, evalPairs, evalOpt, Good, Doc]
-  | succ n ih =>
-    refine ⟨?_, ?_, ?_, ?_, ?_⟩
-    · intro e st0 G S t hty hk0 he0
-      unfold evalE
-      cases ht : tick st0 with
-      | none => exact trivial
-      | some st =>
-        obtain ⟨th, tl, tg⟩ := tick_same ht
-        have hk : HeapOk S st.heap := by rw [th]; exact hk0
-        have he : EnvOk S G st := he0.same tl tg
-        simp only
-        refine Good.trans (S1 := S) (st1 := st) ?_ (Grows.refl S) tl tg
-        cases hty with
-        | num v => exact ⟨S, Grows.refl S, hk, .num v, rfl, rfl⟩
-        | str v => exact ⟨S, Grows.refl S, hk, .str v, rfl, rfl⟩
-        | bool v => exact ⟨S, Grows.refl S, hk, .bool v, rfl, rfl⟩
-        | var nm _ hG =>
-          simp only
-          cases hg : getVar st nm with
-          | none => exact trivial
-          | some v => exact ⟨S, Grows.refl S, hk, he nm t v hG hg, rfl, rfl⟩
-        | any t' inner hne hin =>
-          simp only
-          have h1 := ih.1 inner st G S t' hin hk he
-          cases hq : evalE ops ext prog n inner st with
-          | err o s1 => rw [hq] at h1; exact h1
-          | ok v s1 =>
-            rw [hq] at h1
-            obtain ⟨S1, g1, hk1, hv1, l1, gl1⟩ := h1
-            cases v with
-            | any t2 w => exact absurd rfl (hv1.not_any hne t2 w)
-            | _ => exact ⟨S1, g1, hk1, .any t' _ hne hv1, l1, gl1⟩
-        | arr elems s hs hel =>
-          simp only
-          have h1 := ih.2.1 elems st G S s hel hk he
-          cases hq : evalList ops ext prog n elems st with
-          | err o s1 => rw [hq] at h1; exact h1
-          | ok vs s1 =>
-            rw [hq] at h1
-            obtain ⟨S1, g1, hk1, hv1, l1, gl1⟩ := h1
-            simp only [alloc]
-            obtain ⟨hk', vt⟩ := hk1.push_arr s hs vs hv1
-            exact ⟨_, g1.trans (Grows.snoc S1 _), hk', vt, l1, gl1⟩
-        | mapLit pairs s hs hel =>
-          simp only
-          have h1 := ih.2.2.1 pairs st G S s hel hk he
-          cases hq : evalPairs ops ext prog n pairs st with
-          | err o s1 => rw [hq] at h1; exact h1
-          | ok ps s1 =>
-            rw [hq] at h1
-            obtain ⟨S1, g1, hk1, hv1, l1, gl1⟩ := h1
-            simp only [alloc]
-            obtain ⟨hk', vt⟩ := hk1.push_map s hs (MapVal.ofLiteral ps) (ofLiteral_typed ps hv1)
-            exact ⟨_, g1.trans (Grows.snoc S1 _), hk', vt, l1, gl1⟩
-        | group inner _ hin => exact ih.1 inner st G S t hin hk he
-        | neg inner hin =>
-          simp only
-          have h1 := ih.1 inner st G S .num hin hk he
-          cases hq : evalE ops ext prog n inner st with
-          | err o s1 => rw [hq] at h1; exact h1
-          | ok v s1 =>
-            rw [hq] at h1
-            obtain ⟨S1, g1, hk1, hv1, l1, gl1⟩ := h1
-            obtain ⟨x, rfl⟩ := hv1.num_inv
-            exact ⟨S1, g1, hk1, .num _, l1, gl1⟩
-        | not inner hin =>
-          simp only
-          have h1 := ih.1 inner st G S .bool hin hk he
-          cases hq : evalE ops ext prog n inner st with
-          | err o s1 => rw [hq] at h1; exact h1
-          | ok v s1 =>
-            rw [hq] at h1
-            obtain ⟨S1, g1, hk1, hv1, l1, gl1⟩ := h1
-            obtain ⟨x, rfl⟩ := hv1.bool_inv
-            exact ⟨S1, g1, hk1, .bool _, l1, gl1⟩
-        | arith op l r hop hl hr =>
-          refine binary_case ops ext prog n ih op l r .num .num .num hl hr (no_sc (by cases op <;> simp_all [isArith, isLogic]) _ _) ?_ hk he
-          intro S' st' vl vr hk' h1 h2
-          obtain ⟨x, rfl⟩ := h1.num_inv; obtain ⟨y, rfl⟩ := h2.num_inv
-          exact apply_arith ops ext hx hk' op hop x y
-        | cmpNum op l r hop hl hr =>
-          refine binary_case ops ext prog n ih op l r .num .num .bool hl hr (no_sc (by cases op <;> simp_all [isCmp, isLogic]) _ _) ?_ hk he
-          intro S' st' vl vr hk' h1 h2
-          obtain ⟨x, rfl⟩ := h1.num_inv; obtain ⟨y, rfl⟩ := h2.num_inv
-          exact apply_cmpNum ops ext hk' op hop x y
-        | cmpStr op l r hop hl hr =>
-          refine binary_case ops ext prog n ih op l r .str .str .bool hl hr (no_sc (by cases op <;> simp_all [isCmp, isLogic]) _ _) ?_ hk he
-          intro S' st' vl vr hk' h1 h2
-          obtain ⟨x, rfl⟩ := h1.str_inv; obtain ⟨y, rfl⟩ := h2.str_inv
-          exact apply_cmpStr ops ext hk' op hop x y
-        | concat l r hl hr =>
-          refine binary_case ops ext prog n ih .plus l r .str .str .str hl hr (no_sc (by simp [isLogic]) _ _) ?_ hk he
-          intro S' st' vl vr hk' h1 h2
-          obtain ⟨x, rfl⟩ := h1.str_inv; obtain ⟨y, rfl⟩ := h2.str_inv
-          exact apply_concat ops ext hk' x y
-        | logic op l r hop hl hr =>
-          refine binary_case ops ext prog n ih op l r .bool .bool .bool hl hr (fun _ _ _ h => h) ?_ hk he
-          intro S' st' vl vr hk' h1 h2
-          obtain ⟨x, rfl⟩ := h1.bool_inv; obtain ⟨y, rfl⟩ := h2.bool_inv
-          exact apply_logic ops ext hk' op hop x y
-        | eq op l r t' hop hl hr =>
-          refine binary_case ops ext prog n ih op l r t' t' .bool hl hr (fun _ _ _ h => h) ?_ hk he
-          intro S' st' vl vr hk' h1 h2
-          exact apply_eq ops ext hk' op hop t' vl vr h1 h2
-        | arrCat l r s hl hr =>
-          refine binary_case ops ext prog n ih .plus l r (.arr s) (.arr s) (.arr s) hl hr (fun _ _ _ h => h) ?_ hk he
-          intro S' st' vl vr hk' h1 h2
-          exact apply_arrCat ops ext hk' s vl vr h1 h2
-        | idxArr l i _ hl hi =>
-          simp only
-          have h1 := ih.1 l st G S _ hl hk he
-          cases hq : evalE ops ext prog n l st with
-          | err o s1 => rw [hq] at h1; exact h1
-          | ok left s1 =>
-            rw [hq] at h1
-            obtain ⟨S1, g1, hk1, hv1, l1, gl1⟩ := h1
-            have h2 := ih.1 i s1 G S1 .num hi hk1 ((he.mono g1).same l1 gl1)
-            simp only
-            cases hq2 : evalE ops ext prog n i s1 with
-            | err o s2 => rw [hq2] at h2; exact h2
-            | ok idx s2 =>
-              rw [hq2] at h2
-              obtain ⟨S2, g2, hk2, hv2, l2, gl2⟩ := h2
-              exact (index_arr ops hk2 t left idx (hv1.mono g2) hv2).trans (g1.trans g2) (l2.trans l1) (gl2.trans gl1)
-        | idxStr l i hl hi =>
-          simp only
-          have h1 := ih.1 l st G S _ hl hk he
-          cases hq : evalE ops ext prog n l st with
-          | err o s1 => rw [hq] at h1; exact h1
-          | ok left s1 =>
-            rw [hq] at h1
-            obtain ⟨S1, g1, hk1, hv1, l1, gl1⟩ := h1
-            have h2 := ih.1 i s1 G S1 .num hi hk1 ((he.mono g1).same l1 gl1)
-            simp only
-            cases hq2 : evalE ops ext prog n i s1 with
-            | err o s2 => rw [hq2] at h2; exact h2
-            | ok idx s2 =>
-              rw [hq2] at h2
-              obtain ⟨S2, g2, hk2, hv2, l2, gl2⟩ := h2
-              exact (index_str ops hk2 left idx (hv1.mono g2) hv2).trans (g1.trans g2) (l2.trans l1) (gl2.trans gl1)
-        | idxMap l i _ hl hi =>
-          simp only
-          have h1 := ih.1 l st G S _ hl hk he
-          cases hq : evalE ops ext prog n l st with
-          | err o s1 => rw [hq] at h1; exact h1
-          | ok left s1 =>
-            rw [hq] at h1
-            obtain ⟨S1, g1, hk1, hv1, l1, gl1⟩ := h1
-            have h2 := ih.1 i s1 G S1 .str hi hk1 ((he.mono g1).same l1 gl1)
-            simp only
-            cases hq2 : evalE ops ext prog n i s1 with
-            | err o s2 => rw [hq2] at h2; exact h2
-            | ok idx s2 =>
-              rw [hq2] at h2
-              obtain ⟨S2, g2, hk2, hv2, l2, gl2⟩ := h2
-              exact (index_map ops hk2 t left idx (hv1.mono g2) hv2).trans (g1.trans g2) (l2.trans l1) (gl2.trans gl1)
-        | sliceArr l a b s hl ha hb =>
-          simp only
-          have h1 := ih.1 l st G S _ hl hk he
-          cases hq : evalE ops ext prog n l st with
-          | err o s1 => rw [hq] at h1; exact h1
-          | ok left s1 =>
-            rw [hq] at h1
-            obtain ⟨S1, g1, hk1, hv1, l1, gl1⟩ := h1
-            have h2 := ih.2.2.2.1 a s1 G S1 ha hk1 ((he.mono g1).same l1 gl1)
-            simp only
-            cases hq2 : evalOpt ops ext prog n a s1 with
-            | err o s2 => rw [hq2] at h2; exact h2
-            | ok sv s2 =>
-              rw [hq2] at h2
-              obtain ⟨S2, g2, hk2, hv2, l2, gl2⟩ := h2
-              have h3 := ih.2.2.2.1 b s2 G S2 hb hk2 ((he.mono (g1.trans g2)).same (l2.trans l1) (gl2.trans gl1))
-              simp only
-              cases hq3 : evalOpt ops ext prog n b s2 with
-              | err o s3 => rw [hq3] at h3; exact h3
-              | ok ev s3 =>
-                rw [hq3] at h3
-                obtain ⟨S3, g3, hk3, hv3, l3, gl3⟩ := h3
-                exact (slice_arr ops hk3 s left sv ev ((hv1.mono g2).mono g3) (fun v hv => (hv2 v hv).mono g3) hv3).trans
-                  ((g1.trans g2).trans g3) (l3.trans (l2.trans l1)) (gl3.trans (gl2.trans gl1))
-        | sliceStr l a b hl ha hb =>
-          simp only
-          have h1 := ih.1 l st G S _ hl hk he
-          cases hq : evalE ops ext prog n l st with
-          | err o s1 => rw [hq] at h1; exact h1
-          | ok left s1 =>
-            rw [hq] at h1
-            obtain ⟨S1, g1, hk1, hv1, l1, gl1⟩ := h1
-            have h2 := ih.2.2.2.1 a s1 G S1 ha hk1 ((he.mono g1).same l1 gl1)
-            simp only
-            cases hq2 : evalOpt ops ext prog n a s1 with
-            | err o s2 => rw [hq2] at h2; exact h2
-            | ok sv s2 =>
-              rw [hq2] at h2
-              obtain ⟨S2, g2, hk2, hv2, l2, gl2⟩ := h2
-              have h3 := ih.2.2.2.1 b s2 G S2 hb hk2 ((he.mono (g1.trans g2)).same (l2.trans l1) (gl2.trans gl1))
-              simp only
-              cases hq3 : evalOpt ops ext prog n b s2 with
-              | err o s3 => rw [hq3] at h3; exact h3
-              | ok ev s3 =>
-                rw [hq3] at h3
-                obtain ⟨S3, g3, hk3, hv3, l3, gl3⟩ := h3
-                exact (slice_str ops hk3 left sv ev ((hv1.mono g2).mono g3) (fun v hv => (hv2 v hv).mono g3) hv3).trans
-                  ((g1.trans g2).trans g3) (l3.trans (l2.trans l1)) (gl3.trans (gl2.trans gl1))
-        | dot l key _ hl =>
-          simp only
-          have h1 := ih.1 l st G S _ hl hk he
-          cases hq : evalE ops ext prog n l st with
-          | err o s1 => rw [hq] at h1; exact h1
-          | ok left s1 =>
-            rw [hq] at h1
-            obtain ⟨S1, g1, hk1, hv1, l1, gl1⟩ := h1
-            obtain ⟨a, rfl, ha⟩ := hv1.map_inv
-            obtain ⟨m, hm, hms⟩ := hk1.map a _ ha
-            simp only [heapGet, hm]
-            cases hg : m.get key with
-            | none => exact trivial
-            | some v => exact ⟨S1, g1, hk1, get_typed m hms key v hg, l1, gl1⟩
-        | assert _ inner hne hreg hin =>
-          simp only
-          have h1 := ih.1 inner st G S .any hin hk he
-          cases hq : evalE ops ext prog n inner st with
-          | err o s1 => rw [hq] at h1; exact h1
-          | ok v s1 =>
-            rw [hq] at h1
-            obtain ⟨S1, g1, hk1, hv1, l1, gl1⟩ := h1
-            obtain ⟨t', w, rfl, hne', hw⟩ := hv1.any_inv
-            simp only
-            split
-            · rename_i heq
-              have := equals_eq (hk1.reg_of hw) hreg heq
-              subst this
-              exact ⟨S1, g1, hk1, hw, l1, gl1⟩
-            · exact trivial
-    · -- lists
-      intro es st G S s hes hk he
-      cases es with
-      | nil => exact ⟨S, Grows.refl S, hk, (by intro v hv; cases hv), rfl, rfl⟩
-      | cons e rest =>
-        unfold evalList
-        have h1 := ih.1 e st G S s (hes e List.mem_cons_self) hk he
-        cases hq : evalE ops ext prog n e st with
-        | err o s1 => rw [hq] at h1; exact h1
-        | ok v s1 =>
-          rw [hq] at h1
-          obtain ⟨S1, g1, hk1, hv1, l1, gl1⟩ := h1
-          have h2 := ih.2.1 rest s1 G S1 s (fun x hx => hes x (List.mem_cons_of_mem _ hx)) hk1 ((he.mono g1).same l1 gl1)
-          simp only
-          cases hq2 : evalList ops ext prog n rest s1 with
-          | err o s2 => rw [hq2] at h2; exact h2
-          | ok vs s2 =>
-            rw [hq2] at h2
-            obtain ⟨S2, g2, hk2, hv2, l2, gl2⟩ := h2
-            refine ⟨S2, g1.trans g2, hk2, ?_, l2.trans l1, gl2.trans gl1⟩
-            intro x hx
-            rcases List.mem_cons.mp hx with h | h
-            · subst h; exact hv1.mono g2
-            · exact hv2 x h
-    · -- map literal pairs
-      intro ps st G S s hps hk he
-      cases ps with
-      | nil => exact ⟨S, Grows.refl S, hk, (by intro v hv; cases hv), rfl, rfl⟩
-      | cons p rest =>
-        obtain ⟨k, e⟩ := p
-        unfold evalPairs
-        have h1 := ih.1 e st G S s (hps (k, e) List.mem_cons_self) hk he
-        cases hq : evalE ops ext prog n e st with
-        | err o s1 => rw [hq] at h1; exact h1
-        | ok v s1 =>
-          rw [hq] at h1
-          obtain ⟨S1, g1, hk1, hv1, l1, gl1⟩ := h1
-          have h2 := ih.2.2.1 rest s1 G S1 s (fun x hx => hps x (List.mem_cons_of_mem _ hx)) hk1 ((he.mono g1).same l1 gl1)
-          simp only
-          cases hq2 : evalPairs ops ext prog n rest s1 with
-          | err o s2 => rw [hq2] at h2; exact h2
-          | ok vs s2 =>
-            rw [hq2] at h2
-            obtain ⟨S2, g2, hk2, hv2, l2, gl2⟩ := h2
-            refine ⟨S2, g1.trans g2, hk2, ?_, l2.trans l1, gl2.trans gl1⟩
-            intro x hx
-            rcases List.mem_cons.mp hx with h | h
-            · subst h; exact hv1.mono g2
-            · exact hv2 x h
-    · -- optional slice bound
-      intro oe st G S hoe hk he
-      cases oe with
-      | none => exact ⟨S, Grows.refl S, hk, (by intro v hv; cases hv), rfl, rfl⟩
-      | some e =>
-        unfold evalOpt
-        have h1 := ih.1 e st G S .num (hoe e rfl) hk he
-        cases hq : evalE ops ext prog n e st with
-        | err o s1 => rw [hq] at h1; exact h1
-        | ok v s1 =>
-          rw [hq] at h1
-          obtain ⟨S1, g1, hk1, hv1, l1, gl1⟩ := h1
-          exact ⟨S1, g1, hk1, (by intro w hw; cases hw; exact hv1), l1, gl1⟩
-    · -- argument lists: every argument of its own type
-      intro es st G S hes hk he
-      cases es with
-      | nil => exact ⟨S, Grows.refl S, hk, (by intro v hv; cases hv), rfl, rfl⟩
-      | cons e rest =>
-        unfold evalList
-        obtain ⟨t, hty⟩ := hes e List.mem_cons_self
-        have h1 := ih.1 e st G S t hty hk he
-        cases hq : evalE ops ext prog n e st with
-        | err o s1 => rw [hq] at h1; exact h1
-        | ok v s1 =>
-          rw [hq] at h1
-          obtain ⟨S1, g1, hk1, hv1, l1, gl1⟩ := h1
-          have h2 := ih.2.2.2.2 rest s1 G S1 (fun x hx => hes x (List.mem_cons_of_mem _ hx)) hk1 ((he.mono g1).same l1 gl1)
-          simp only
-          cases hq2 : evalList ops ext prog n rest s1 with
-          | err o s2 => rw [hq2] at h2; exact h2
-          | ok vs s2 =>
-            rw [hq2] at h2
-            obtain ⟨S2, g2, hk2, hv2, l2, gl2⟩ := h2
-            refine ⟨S2, g1.trans g2, hk2, ?_, l2.trans l1, gl2.trans gl1⟩
-            intro x hx
-            rcases List.mem_cons.mp hx with h | h
-            · subst h; exact ⟨t, hv1.mono g2⟩
-            · exact hv2 x h
-
-/-- **type soundness, expressions**: a well-typed expression, evaluated for any number of steps in a
-well-typed state, yields a value of its static type in a well-typed state, or ends in a documented
-outcome -/
-theorem expr_sound (hx : ExtOk ext) (fuel : Nat) (e : Expr F) (st : St F) (G : Env) (S : Store) (t : Ty)
-    (hty : Typed G e t) (hk : HeapOk S st.heap) (he : EnvOk S G st) :
-    match evalE ops ext prog fuel e st with
-    | .ok v st' => ∃ S', Grows S S' ∧ HeapOk S' st'.heap ∧ VT S' v t ∧ EnvOk S' G st'
-    | .err o _ => Doc o := by
-  have h := (sound ops ext prog hx fuel).1 e st G S t hty hk he
-  cases hq : evalE ops ext prog fuel e st with
-  | err o s => rw [hq] at h; exact h
-  | ok v s =>
-    rw [hq] at h
-    obtain ⟨S', g, hk', hv, l, gl⟩ := h
-    exact ⟨S', g, hk', hv, (he.mono g).same l gl⟩
-
-/-- a well-typed expression never ends with an internal error or a Go panic -/
-theorem expr_never_goes_wrong (hx : ExtOk ext) (fuel : Nat) (e : Expr F) (st st' : St F) (G : Env) (S : Store) (t : Ty)
-    (hty : Typed G e t) (hk : HeapOk S st.heap) (he : EnvOk S G st) (w : String) :
-    evalE ops ext prog fuel e st ≠ .err (.internal w) st' ∧ evalE ops ext prog fuel e st ≠ .err (.goPanic w) st' := by
-  have h := expr_sound ops ext prog hx fuel e st G S t hty hk he
-  constructor <;> intro hq <;> rw [hq] at h <;> exact h
-
-/-- the hypotheses are satisfiable: `xs[1] + n == 3 and !b` with xs = [1 2], n = 2, b = false -/
-example : ∃ (G : Env) (S : Store) (st : St Int) (e : Expr Int),
-    Typed G e .bool ∧ HeapOk S st.heap ∧ EnvOk S G st ∧ S ≠ [] := by
-  let G : Env := fun n => if n = lit "xs" then some (.arr .num) else if n = lit "n" then some .num else if n = lit "b" then some .bool else none
-  let st : St Int := { heap := #[.arr [.num 1, .num 2]], global := [(lit "xs", .arr 0), (lit "n", .num 2), (lit "b", .bool false)] }
-  refine ⟨G, [.arr .num], st,
-    .binary .and (.binary .eq (.binary .plus (.index (.var (lit "xs")) (.num 1)) (.var (lit "n"))) (.num 3)) (.unary .bang (.var (lit "b"))), ?_, ?_, ?_, by simp⟩
-  · refine .logic _ _ _ rfl (.eq _ _ _ .num rfl (.arith _ _ _ rfl (.idxArr _ _ _ (.var _ _ ?_) (.num _)) (.var _ _ ?_)) (.num _)) (.not _ (.var _ _ ?_)) <;> simp [G, lit]
-  · refine ⟨rfl, by simp [Reg], ?_, ?_⟩
-    · intro a s h
-      cases a with
-      | zero => simp at h; subst h; exact ⟨_, rfl, by intro v hv; simp at hv; rcases hv with h | h <;> subst h <;> exact .num _⟩
-      | succ k => simp at h
-    · intro a s h
-      cases a with
-      | zero => simp at h
-      | succ k => simp at h
-  · intro n t v hG hv
-    simp only [getVar, st, List.findSome?_nil, scopeGet] at hv
-    split at hv
-    · cases hv
-    · simp only [G] at hG
-      simp only [List.lookup] at hv
-      split at hG
-      · rename_i h; subst h; simp [lit] at hv hG; subst hv hG; exact .arr 0 _ rfl
-      · split at hG
-        · rename_i h1 h; subst h; simp [lit] at hv hG; subst hv hG; exact .num _
-        · split at hG
-          · rename_i h1 h2 h; subst h; simp [lit] at hv hG; subst hv hG; exact .bool _
-          · cases hG
 
 end EvyV.TS
